@@ -338,8 +338,14 @@ def run_readonly_kill(desc):
             pid = os.fork()
             if pid == 0:
                 try:
-                    os.setgid(UID)
-                    os.setuid(UID)
+                    try:
+                        os.setgid(UID)
+                        os.setuid(UID)
+                        os.listdir(d)
+                        with open(base, "rb"):
+                            pass
+                    except OSError:
+                        os._exit(99)  # privileges cannot be dropped here, or the scratch directory is out of reach for an ordinary user
                     with fsfault.Shim(plan, d):
                         try:
                             writer(desc["store"], path)(value)
@@ -348,6 +354,10 @@ def run_readonly_kill(desc):
                 finally:
                     os._exit(0)
             _, status = os.waitpid(pid, 0)
+            if os.WIFEXITED(status) and os.WEXITSTATUS(status) == 99:
+                res["counters"]["readonly_kill_unprivileged_user_unavailable"] = 1
+                res["nontrivial"] = False
+                return res
             if not (os.WIFEXITED(status) and os.WEXITSTATUS(status) == 137):
                 return {"status": "inconclusive", "detail": f"[readonly_kill] the kill at operation {k} ({opname}) was never reached (child status {status})"}
             res["counters"]["readonly_kill_points"] += 1
